@@ -116,6 +116,41 @@ impl ElemT for T2 {
     fn val(&self) -> u64 { 0 }
     fn set_val(&mut self, _v: u64) { chk_align(self, "T2") }
 }
+/// element sizes that are no multiple of 4 (the data part of a small table then needs padding up to
+/// the control-byte alignment): 3 bytes (align 1), 6 bytes (align 2), 12 bytes (align 4)
+#[derive(Clone, Copy)]
+pub struct T3([u8; 3]);
+impl ElemT for T3 {
+    const DROP: bool = false;
+    const HAS_VAL: bool = false;
+    fn mk(id: u64, _s: u64, _v: u64) -> Self { T3([id as u8, (id >> 8) as u8, 0]) }
+    fn id(&self) -> u64 { self.0[0] as u64 | (self.0[1] as u64) << 8 }
+    fn stamp(&self) -> u64 { 0 }
+    fn val(&self) -> u64 { 0 }
+    fn set_val(&mut self, _v: u64) {}
+}
+#[derive(Clone, Copy)]
+pub struct T6([u16; 3]);
+impl ElemT for T6 {
+    const DROP: bool = false;
+    const HAS_VAL: bool = true;
+    fn mk(id: u64, s: u64, v: u64) -> Self { T6([id as u16, s as u16, v as u16]) }
+    fn id(&self) -> u64 { chk_align(self, "T6"); self.0[0] as u64 }
+    fn stamp(&self) -> u64 { self.0[1] as u64 }
+    fn val(&self) -> u64 { self.0[2] as u64 }
+    fn set_val(&mut self, v: u64) { chk_align(self, "T6"); self.0[2] = v as u16 }
+}
+#[derive(Clone, Copy)]
+pub struct T12([u32; 3]);
+impl ElemT for T12 {
+    const DROP: bool = false;
+    const HAS_VAL: bool = true;
+    fn mk(id: u64, s: u64, v: u64) -> Self { T12([id as u32, s as u32, v as u32]) }
+    fn id(&self) -> u64 { chk_align(self, "T12"); self.0[0] as u64 }
+    fn stamp(&self) -> u64 { self.0[1] as u64 }
+    fn val(&self) -> u64 { self.0[2] as u64 }
+    fn set_val(&mut self, v: u64) { chk_align(self, "T12"); self.0[2] = v as u32 }
+}
 /// zero-sized element
 #[derive(Clone, Copy)]
 pub struct Tz;
